@@ -36,6 +36,10 @@ KFCell(c) ==
          ELSE IF c.ref = "config" /\ c.shape = "apikey-header-also-declared-parameter" THEN "c01-apikey-header-declared-twice"
          ELSE IF c.ref = "config" /\ c.shape = "static-and-variable-child-same-name" THEN "c01-route-name-collision"
          ELSE ""
+    ELSE IF c.kind = "mutant" THEN
+         IF c.shape = "template-error" THEN "c15-template-error-unlocated"
+         ELSE IF c.shape = "panic" /\ c.pos \in {"CyclicRef"} THEN "c15-cyclic-ref"
+         ELSE ""
     ELSE IF c.nullable THEN "c01-nullable"
     ELSE IF c.kind = "arrayOfDatetime" \/ (c.kind = "datetime" /\ c.pos = "items") THEN "c01-array-datetime"
     ELSE IF c.ref # "inline" /\ c.pos \in {"property", "items"} THEN "c01-ref-nonstruct"
